@@ -115,7 +115,7 @@ def generate(tier, seed, ctx):
         fid = [0, 1, 5, 2, 0, 5][(k // 3) % 6] if k % 2 == 0 else rng.choice([0, 1, 2, 5, 3, 4])
         n = rng.choice([60, 100, 500, 1000, 2000] if method != "Vegas" else [1000, 2000, 4000])
         if th and k % 7 == 0:
-            n = rng.choice([5000, 20000, 100000])
+            n = rng.choice([5000, 20000, 40000])
         if method == "Miser" and k % 11 == 0:
             n = rng.choice([1, 15, 59, 60, 61, 74, 75, 150])
         if method == "Monte-Carlo" and k % 13 == 0:
@@ -129,6 +129,19 @@ def generate(tier, seed, ctx):
             R.append("c14.call " + call_str(method, rng.randrange(2 ** 32), lo, hi, rng.choice([1000, 3000]), 0, [0.0]))
             c = [lo[i] + 0.37 * (hi[i] - lo[i]) for i in range(d)]
             R.append("c14.call " + call_str(method, rng.randrange(2 ** 32), lo, hi, rng.choice([1000, 3000]), 4, c + [1e-5]))
+    # --- huge dynamic range (values spanning > 24 decades across the region): NaN-free and within six plain-MC sigma
+    hdr = [(3, [0.0, 0.0], [200.0, 2.0], [1.0, 1.0], 100000),
+           (4, [0.0], [1000.0], [300.0, 1.0], 100000),
+           (4, [10.0, -5.0, 0.0], [60.0, 5.0, 2.0], [20.0, 1.0, 1.0, 1.0], 300000)]
+    if th:
+        hdr += [(3, [0.0, 0.0, 0.0], [150.0, 1.0, 300.0], [1.0, 0.5, 1.0], 200000),
+                (4, [-20.0, 0.0], [500.0, 40.0], [5.0, 12.0, 1.0], 200000),
+                (4, [0.0], [1000.0], [700.0, 2.0], 100000),
+                (3, [5.0], [400.0], [1.0], 100000)]
+    for fid, lo, hi, p, n in hdr:
+        for method in METHODS:
+            for _ in range((3 if th else 2) if method == "Miser" else 1):
+                R.append("c14.call " + call_str(method, rng.randrange(2 ** 32), lo, hi, n, fid, p))
     # --- class B: six standard errors, sigma from repeated fixed seeds
     K = 12 if th else 8
     gi = 0
@@ -213,6 +226,36 @@ def const_check(ctx, name, method, v, ex, calls):
     return [fail("prop", name + ": constant integrand not integrated exactly", "%r vs %r" % (v, ex))]
 
 
+NONFINITE_CLAUSE = "Integrate_MC returned a non-finite value for a bounded integrand"
+
+
+def nonfinite_fail(name, *vals):
+    for v in vals:
+        if math.isnan(v) or math.isinf(v):
+            return [fail("prop", NONFINITE_CLAUSE, "%s returned %r" % (name, v))]
+    return []
+
+
+def plain_mc_sigma(fid, lo, hi, p, n):
+    """standard error of plain Monte Carlo with n points: sqrt((V * int f^2 - I^2) / n), closed form for the
+    separable exponential (fid 3) and the Gaussian (fid 4) families"""
+    d = len(lo)
+    vol = 1.0
+    for i in range(d):
+        vol *= hi[i] - lo[i]
+    I = exact_integral(fid, lo, hi, p)
+    if fid == 3:
+        I2 = exact_integral(3, lo, hi, [2 * a for a in p])
+    elif fid == 4:
+        I2 = exact_integral(4, lo, hi, p[:d] + [p[d] / math.sqrt(2.0)])
+    else:
+        return None
+    return math.sqrt(max(vol * I2 - I * I, 0.0) / n)
+
+
+HDR_MIN_CALLS = 50000   # requests with fid 3/4 and at least this budget are the huge-dynamic-range accuracy family
+
+
 def crash_fail(name, impl):
     return [fail("prop", name + " crashed / exited on a valid request: " + tag(impl), impl[:200])]
 
@@ -246,6 +289,9 @@ def compare(rq, impl, model, ctx):
         if tag(impl) != "ok":
             return crash_fail("Integrate_MC(%s)" % c["method"], impl)
         t = toks(impl)
+        nf_ = nonfinite_fail("Integrate_MC(%s)" % c["method"], fl(t[0]), fl(t[2]))
+        if nf_:
+            return nf_
         if t[0] != t[2] or t[1] != t[3]:
             return [fail("prop", "Integrate_MC(%s): result depends on integrations run before it (same call and seed, fresh process vs after a history)" % c["method"],
                          "fresh %s (%s calls) after history %s (%s calls)" % (t[0], t[1], t[2], t[3]))]
@@ -262,6 +308,8 @@ def compare(rq, impl, model, ctx):
             return [fail("prop", name + " crashed / exited on a valid request: " + tag(impl), impl[:200])]
         t = toks(impl)
         v, calls = fl(t[0]), int(t[1]); mins = [fl(x) for x in t[2:2 + d]]; maxs = [fl(x) for x in t[2 + d:2 + 2 * d]]
+        if nonfinite_fail(name, v):
+            return nonfinite_fail(name, v)
         f = inside_fail(name, mins, maxs, lo, hi)
         if f:
             return [f]
@@ -287,13 +335,21 @@ def compare(rq, impl, model, ctx):
     nf = int(t[2 + 2 * d]); first = [fl(x) for x in t[3 + 2 * d:3 + 2 * d + nf]]
     kind = "unit" if lo == [0.0] * d else ("wide" if max(h - l for h, l in zip(hi, lo)) > 50 else ("narrow" if min(h - l for h, l in zip(hi, lo)) < 0.02 else "mid"))
     ctx["nontrivial"].add((op, c["method"], d, c["fid"], kind, tag(model)))
+    if nonfinite_fail(name, v):
+        return nonfinite_fail(name, v)
     f = inside_fail(name, mins, maxs, lo, hi)
     if f:
         return [f]
     out = []
     ex = exact_integral(c["fid"], lo, hi, c["p"])
-    if math.isnan(v) or math.isinf(v):
-        return [fail("prop", name + ": result is not finite", repr(v))]
+    if c["fid"] in (3, 4) and c["n"] >= HDR_MIN_CALLS:
+        # accuracy clause on the huge-dynamic-range family: within six plain-Monte-Carlo standard errors (generous:
+        # the stratified methods must not be worse than plain sampling)
+        sg = plain_mc_sigma(c["fid"], lo, hi, c["p"], c["n"])
+        ctx["nontrivial"].add(("hdr-six-sigma", c["method"], d, c["fid"]))
+        if sg is not None and abs(v - ex) > 6 * sg + 1e-12 * abs(ex):
+            return [fail("prop", name + ": estimate farther than six (plain Monte-Carlo) standard errors from the exact value",
+                         "value %r exact %r sigma %.3g" % (v, ex, sg))]
     if c["fid"] == 0:
         out += const_check(ctx, name, c["method"], v, ex, calls)
     if c["method"] != "Vegas" and calls != c["n"]:
